@@ -1024,6 +1024,10 @@ func checkC09(P *Prog, r *Result) {
 						sortedIdiom = append(sortedIdiom, ph.Comment)
 						continue
 					}
+					if P.collectThenKeyUse(l, ph) {
+						r.info("%s: slice %s accumulated in visit order and consumed only as a set of map keys (delete / m[k] = m2[k])", lname, ph.Comment)
+						continue
+					}
 					carried = append(carried, fmt.Sprintf("%s (%s) %s", ph.Comment, typeStr(ph.Type()), ph.Name()))
 				}
 			}
@@ -1372,6 +1376,142 @@ func collectThenSort(l rangeLoop, ph *ssa.Phi) bool {
 			continue
 		}
 		if !sb.Dominates(ob) {
+			return false
+		}
+	}
+	return true
+}
+
+// collectThenKeyUse recognises the other order-insensitive accumulation: keys
+// are collected into a slice in visit order, the slice is returned by an
+// unexported helper that only runs from its static call sites, and every call
+// site consumes the result only element by element, each element only as the
+// key of delete(m, k), m[k] = ..., or a lookup m2[k] whose result is stored
+// under that same key. Every such operation reads and writes only the entry of
+// the element's own key, so the final maps are a function of the *set* of
+// collected keys.
+func (P *Prog) collectThenKeyUse(l rangeLoop, ph *ssa.Phi) bool {
+	if _, ok := ph.Type().Underlying().(*types.Slice); !ok {
+		return false
+	}
+	fn := ph.Parent()
+	// the slice value and everything it flows to: phis and appends (as the accumulated operand) only,
+	// ending in a return of fn
+	flow := map[ssa.Value]bool{}
+	ok := true
+	returned := false
+	var visit func(v ssa.Value)
+	visit = func(v ssa.Value) {
+		if flow[v] || !ok {
+			return
+		}
+		flow[v] = true
+		refs := v.Referrers()
+		if refs == nil {
+			return
+		}
+		for _, rf := range *refs {
+			switch x := rf.(type) {
+			case *ssa.Phi:
+				visit(x)
+			case *ssa.Call:
+				if ci := callOf(x); ci.builtin == "append" && x.Call.Args[0] == v {
+					visit(x)
+				} else {
+					ok = false
+				}
+			case *ssa.Return:
+				returned = true
+			case *ssa.DebugRef:
+			default:
+				ok = false
+			}
+		}
+	}
+	visit(ph)
+	if !ok || !returned || fn.Signature.Results().Len() != 1 {
+		return false
+	}
+	sites, closed := P.closedCallSites(fn)
+	if !closed || len(sites) == 0 {
+		return false
+	}
+	for _, site := range sites {
+		res, isVal := site.(*ssa.Call)
+		if !isVal || !sliceUsedOnlyAsKeySet(res) {
+			return false
+		}
+	}
+	return true
+}
+
+// sliceUsedOnlyAsKeySet: the slice is only measured and indexed, and every
+// element read from it is used only as a map key in operations on that key.
+func sliceUsedOnlyAsKeySet(s ssa.Value) bool {
+	refs := s.Referrers()
+	if refs == nil {
+		return true
+	}
+	keyOnly := func(e ssa.Value) bool {
+		er := e.Referrers()
+		if er == nil {
+			return true
+		}
+		for _, u := range *er {
+			switch x := u.(type) {
+			case *ssa.DebugRef:
+			case *ssa.MapUpdate:
+				if x.Key != e || x.Value == e || x.Map == e {
+					return false
+				}
+			case *ssa.Lookup:
+				if x.Index != e || x.X == e {
+					return false
+				}
+				// the looked-up value is stored under the same key and nothing else
+				if lr := x.Referrers(); lr != nil {
+					for _, lu := range *lr {
+						switch y := lu.(type) {
+						case *ssa.DebugRef:
+						case *ssa.MapUpdate:
+							if y.Value != ssa.Value(x) || y.Key != e {
+								return false
+							}
+						default:
+							return false
+						}
+					}
+				}
+			case ssa.CallInstruction:
+				ci := callOf(u)
+				if ci == nil || ci.builtin != "delete" || x.Common().Args[1] != e || x.Common().Args[0] == e {
+					return false
+				}
+			default:
+				return false
+			}
+		}
+		return true
+	}
+	for _, rf := range *refs {
+		switch x := rf.(type) {
+		case *ssa.DebugRef:
+		case *ssa.IndexAddr:
+			ir := x.Referrers()
+			if ir == nil {
+				continue
+			}
+			for _, u := range *ir {
+				ld, isLoad := u.(*ssa.UnOp)
+				if !isLoad || ld.Op != token.MUL || !keyOnly(ld) {
+					return false
+				}
+			}
+		case *ssa.Call:
+			if ci := callOf(x); ci.builtin != "len" {
+				return false
+			}
+		default:
 			return false
 		}
 	}
